@@ -30,7 +30,7 @@ def main():
     only = sys.argv[1:]
     rows = []
     assert sh("git -C /repo status --porcelain").stdout.strip() == "", "/repo is not clean"
-    for d in sorted(glob.glob(os.path.join(SEEDED, "C*-m*"))):
+    for d in sorted(glob.glob(os.path.join(SEEDED, "C*-*m[0-9]*"))):
         name = os.path.basename(d)
         if only and not any(name.startswith(o) for o in only):
             continue
